@@ -135,7 +135,7 @@ def load_known(prop):
 
 
 def _flat(v):
-    d = {k: v.get(k) for k in ("cls", "exc", "site", "op", "struct", "radii", "dropped", "merged")}
+    d = {k: v.get(k) for k in ("cls", "exc", "site", "op", "struct", "radii", "dropped", "merged", "multi_draw")}
     for k, val in (v.get("recipe") or {}).items():
         d["recipe." + k] = val
     return d
